@@ -565,7 +565,11 @@ class InstanceWriteProvider(BaseProvider):
                                                  target_namespace)
         assert self.is_association(creation_class)
 
-        ref_namespaces = set()
+        # Namespace names are case insensitive and leading or trailing
+        # slashes are ignored: the same namespace in a different lexical
+        # form is not another namespace.
+        ref_namespaces = []
+        seen_namespaces = {target_namespace.strip('/').lower()}
         for inst_prop in cim_object.properties.values():
             if inst_prop.type == 'reference':
                 if inst_prop.value is None:
@@ -578,10 +582,12 @@ class InstanceWriteProvider(BaseProvider):
                 # Add to list if namespace exists and not same as
                 # target_namespace
                 if refprop_namespace:
-                    if refprop_namespace != target_namespace:
-                        ref_namespaces.add(inst_prop.value.namespace)
+                    ns_key = refprop_namespace.strip('/').lower()
+                    if ns_key not in seen_namespaces:
+                        seen_namespaces.add(ns_key)
+                        ref_namespaces.append(refprop_namespace)
 
-        return list(ref_namespaces)
+        return ref_namespaces
 
     def get_required_class(self, instance, namespace):
         """
